@@ -146,7 +146,7 @@ void bagT(Case& c, bool pops, unsigned cap, unsigned nops) {
       }
       checkBagAll(c, *bp, m, cap, tracked);
     }
-    c.lastOp = "destructor";
+    c.phase("destructor");
   }
   c.lifetimesOk(tracked ? 0 : -1);
 }
